@@ -9,7 +9,7 @@ def theorems(path):
         out.append((m.group(2), doc))
     return out
 extra={
-'C04':"Correspondence layers (harness/src/c04.rs, harness/src/sys.rs): (1) single memory-side bus cycles through the real `wait_mreq`; (2) single port cycles through the real `read_io`/`write_io`; (3) every one of the 1792 instruction encodings executed by the real Z80 inside the real Emulator at interesting frame T-states with random placement — the bus-cycle trace comes from the real Z80 on a recording bus and is replayed through the Lean machine model (exact) and the contention spec; (4) timed cycles after seeded histories of paging writes (locking writes included); (2b) the same port cycles and a quarter of the instruction cases on a machine with a host I/O extender attached that claims the port; (5) whole-machine lock-step: random programs on the real Emulator vs the Lean Z80 reference on the Lean Spectrum bus, everything compared after every instruction (half of the cases are block instructions with HL/DE on 16K boundaries inside the picture).",
+'C04':"Correspondence layers (harness/src/c04.rs, harness/src/sys.rs): (0) exhaustive: a 1-T contended memory cycle and the four port patterns (even/odd port x contended/uncontended high byte) at every one of the 69888/70908 frame T-states of both machines; (1) single memory-side bus cycles through the real `wait_mreq`; (2) single port cycles through the real `read_io`/`write_io`; (3) every one of the 1792 instruction encodings executed by the real Z80 inside the real Emulator at interesting frame T-states with random placement — the bus-cycle trace comes from the real Z80 on a recording bus and is replayed through the Lean machine model (exact) and the contention spec; (4) timed cycles after seeded histories of paging writes (locking writes included); (2b) the same port cycles and a quarter of the instruction cases on a machine with a host I/O extender attached that claims the port; (5) whole-machine lock-step: random programs on the real Emulator vs the Lean Z80 reference on the Lean Spectrum bus, everything compared after every instruction (half of the cases are block instructions with HL/DE on 16K boundaries inside the picture).",
 'C05':"Correspondence (harness/src/c05.rs): clock level — random wait sequences through the real `wait_internal`, (offset, frames, INT) compared after every wait with model and with total = frames*L + offset; system level — counting loop (16 T/iteration) over 1..14 frames sliced 1/2/3/14 frames per call, IM 2 interrupt counters under HALT and busy loops, INT-window sweep at offsets 0..47.",
 'C06':"Correspondence (harness/src/c06.rs): all 64 paging states x all 256 latch values with marker bytes per bank/ROM page; seeded histories of paging writes (canonical and partially decoded ports), memory writes and reads through all windows, host-supplied ROM sets (short reads on the second page); paging registers and 12 probe addresses compared after every operation.",
 'C07':"Correspondence (harness/src/c07.rs): all 65536 ports x read/write x 48K/128K x kempston x mouse x extender predicates through the real `read_io`/`write_io` (devices recognised by distinguishable values / side effects, speaker latch set during the read sweep); floating bus at every T-state of a frame on both machines.",
